@@ -13,30 +13,34 @@ import gen_full
 from common import NCPU, Report, log, seed
 
 WALKER = r'''
-def _children(v):
+def _sub(p, suffix):
+    return None if p == None else p + suffix
+
+def _children(v, p):
+    # (child, path): path is the source text of an expression with literal indices reaching the child, or None
     t = type(v)
     if t == "list" or t == "tuple":
-        return [x for x in v]
+        return [(v[i], _sub(p, "[%d]" % i)) for i in range(len(v))]
     if t == "dict":
-        return [x for x in v.values()] + [k for k in v.keys()]
+        return [(v[k], _sub(p, "[" + repr(k) + "]") if type(k) in ("string", "int") else None) for k in v.keys()] + [(k, None) for k in v.keys()]
     if t == "struct" or t == "record":
-        return [getattr(v, n) for n in dir(v) if n not in ("to_json",)]
+        return [(getattr(v, n), _sub(p, "." + n)) for n in dir(v) if n not in ("to_json",)]
     return []
 
 def _walk(roots, limit):
-    seen = []   # containers found (list/dict/set), possibly with duplicates through aliasing
-    frontier = [(r, 0) for r in roots]
+    seen = []   # (container, path) found (list/dict/set), possibly with duplicates through aliasing
+    frontier = [(r[1], 0, r[0]) for r in roots]
     for _ in range(limit):
         if not frontier:
             break
         nxt = []
-        for v, d in frontier:
+        for v, d, p in frontier:
             t = type(v)
             if t in ("list", "dict", "set"):
-                seen.append(v)
+                seen.append((v, p))
             if d < 4 and len(seen) < 60:
-                for c in _children(v):
-                    nxt.append((c, d + 1))
+                for c, cp in _children(v, p):
+                    nxt.append((c, d + 1, cp))
         frontier = nxt[:200]
     return seen
 
@@ -98,8 +102,10 @@ def _nonmut(v):
     return attempt(ops)
 
 def attack(tag, roots):
-    cs = _walk(roots, 6)
+    found = _walk(roots, 6)
+    cs = [f[0] for f in found]
     emit("found", tag, len(cs), [type(c) for c in cs])
+    emit("paths", tag, [[f[1] if f[1] != None else "", type(f[0]), repr(f[0])] for f in found])
     for i, c in enumerate(cs):
         t = type(c)
         cp = _copy(c)
@@ -133,7 +139,7 @@ def importer_src(names, fns, tag, lib_file="lib.star", extra=""):
     src = 'load("%s", %s)\n' % (lib_file, loads) if loads else ""
     src += WALKER
     src += extra
-    src += "attack(\"%s\", [%s])\n" % (tag, ", ".join(names))
+    src += "attack(\"%s\", [%s])\n" % (tag, ", ".join('("%s", %s)' % (n, n) for n in names))
     # exported functions: call them (pure ones must work; ones that would mutate captured state must fail or change nothing)
     for f in fns:
         args = ", ".join(gen_lit(pt) for (_, pt, hd) in f.params if not hd)
@@ -145,6 +151,98 @@ def importer_src(names, fns, tag, lib_file="lib.star", extra=""):
 def gen_lit(ty):
     return {"int": "3", "str": '"ab"', "bool": "True", "list_int": "[1, 2]", "list_str": '["a"]', "dict_si": '{"a": 1}', "dict_is": '{1: "a"}',
             "tup_is": '(1, "a")', "list_list_int": "[[1]]"}.get(ty, "None")
+
+
+LIT_MUT = {
+    "list": {"append": "{P}.append(9)", "extend": "{P}.extend([9])", "insert": "{P}.insert(0, 9)", "pop": "{P}.pop()", "remove": "{P}.remove({P}[0])", "clear": "{P}.clear()",
+             "setitem": "{P}[0] = 99", "iadd": "{P} += [9]", "setitem_aug": "{P}[0] += 1"},
+    "dict": {"setnew": '{P}["__new__"] = 9', "setold": "{P}[list({P}.keys())[0]] = 99", "pop": "{P}.pop(list({P}.keys())[0])", "popitem": "{P}.popitem()",
+             "setdefault": '{P}.setdefault("__new__", 1)', "update": '{P}.update({"__new__": 1})', "update_kw": "{P}.update(__new__=1)", "clear": "{P}.clear()",
+             "ior": '{P} |= {"__new__": 1}'},
+    "set": {"add": '{P}.add("__new__")', "remove": "{P}.remove(list({P})[0])", "discard": "{P}.discard(list({P})[0])", "pop": "{P}.pop()", "clear": "{P}.clear()",
+            "update": '{P}.update(["__new__"])'},
+}
+
+
+def const_path_case(c, evs, rng):
+    """Round 2: the same library, attacked through *literal* paths (LIB_X[0]["k"].append(9)), i.e. expressions the
+    optimiser can fold because loaded / frozen module values are constants to it. Each attempt is written out as
+    its own def, once in an importing module and once in the library itself (re-optimised when the library freezes),
+    only for (container, mutator) pairs whose control on an unfrozen copy showed the operation is a real mutation."""
+    paths = None
+    well = {}
+    for e in evs:
+        if e[0] != "e" or not isinstance(e[1], str):
+            continue
+        if e[1] == "spaths" and e[2] == "simp0":
+            paths = [[x[1][1:], x[2][1:], x[3][1:]] for x in e[3][1:]]
+        elif e[1] == "satt" and e[2] == "simp0" and e[6] == "sok" and e[7] is True:
+            well.setdefault(int(e[3][1:]), []).append(e[5][1:])
+    if not paths:
+        return None, []
+    lib_unit = None
+    for u in c["units"]:
+        if u["file"] == "lib.star":
+            lib_unit = u
+    imp0 = [u for u in c["units"] if u["file"] == "imp0.star"][0]
+    loads = imp0["src"].split("\n", 1)[0]
+    idxs = [i for i, pth in enumerate(paths) if pth[0] and well.get(i)]
+    rng.shuffle(idxs)
+    idxs = idxs[:14]
+    imp_defs, imp_calls, lib_defs, lib_names, expect = [], [], [], [], []
+    k = 0
+    for i in idxs:
+        P, kind, rp = paths[i]
+        bare = not any(ch in P for ch in "[.")
+        imp_calls.append('emit("lrepr", %d, repr(%s))\n' % (i, P))
+        for mname in well[i]:
+            tmpl = LIT_MUT[kind].get(mname)
+            if tmpl is None or (bare and mname in ("iadd", "ior")):
+                continue
+            stmt = tmpl.replace("{P}", P)
+            k += 1
+            imp_defs.append("def _l%d():\n    %s\n" % (k, stmt))
+            imp_calls.append('emit("latt", "imp", %d, "%s", "%s", attempt(_l%d)[0], repr(%s))\n' % (i, kind, mname, k, P))
+            lib_defs.append("def lib_lit%d():\n    %s\n" % (k, stmt))
+            lib_names.append("lib_lit%d" % k)
+            imp_calls.append('emit("latt", "lib", %d, "%s", "%s", attempt(lib_lit%d)[0], repr(%s))\n' % (i, kind, mname, k, P))
+        expect.append((i, P, kind, rp))
+    if not k:
+        return None, []
+    lib2 = dict(lib_unit)
+    lib2["src"] = lib_unit["src"] + "".join(lib_defs)
+    lib2.pop("snapshot", None)
+    lib2.pop("snapshot_calls", None)
+    loads2 = loads[:-1] + "".join(', "%s"' % n for n in lib_names) + ")"
+    imp = {"file": "imp_lit.star", "src": loads2 + "\n" + "".join(imp_defs) + "".join(imp_calls)}
+    units = [u for u in c["units"] if u["file"] == "base.star"] + [lib2, imp]
+    return {"id": c["id"] + "/lit", "cfg": c["cfg"], "units": units}, expect
+
+
+def check_const_paths(rep, flavor, c2, expect, evs, st):
+    wit = {"flavor": flavor, "case": c2}
+    exp = {i: (P, kind, rp) for (i, P, kind, rp) in expect}
+    for e in evs:
+        if e[0] == "r" and e[3] == "err":
+            rep.violation("c04:const-path-module-failed:" + e[4].get("msg", "")[:50], "[%s] %s: module %s of the literal-path round failed: %s" % (flavor, c2["id"], e[1], e[4].get("msg")), wit)
+        if e[0] != "e" or not isinstance(e[1], str):
+            continue
+        if e[1] == "slrepr":
+            i = int(e[2][1:])
+            st["const_path_observations"] += 1
+            if e[3][1:] != exp[i][2]:
+                rep.violation("c04:const-path-observation-differs:" + exp[i][1], "[%s] %s: repr(%s) written with literal indices is %s but the walker saw %s" % (
+                    flavor, c2["id"], exp[i][0], e[3][1:][:200], exp[i][2][:200]), wit)
+        elif e[1] == "slatt":
+            where, i, kind, mname, res, after = e[2][1:], int(e[3][1:]), e[4][1:], e[5][1:], e[6], e[7][1:]
+            st["const_path_attempts"] += 1
+            P = exp[i][0]
+            if res != "serr":
+                rep.violation("c04:mutation-succeeded-const-path:%s:%s" % (kind, mname), "[%s] %s: `%s` on the frozen %s at literal path %s (def in the %s) did not fail" % (
+                    flavor, c2["id"], LIT_MUT[kind][mname].replace("{P}", P), kind, P, "importing module" if where == "imp" else "library, re-optimised at freeze"), wit)
+            elif after != exp[i][2]:
+                rep.violation("c04:const-path-mutation-changed:%s:%s" % (kind, mname), "[%s] %s: after the failed `%s` repr(%s) is %s, was %s" % (
+                    flavor, c2["id"], LIT_MUT[kind][mname].replace("{P}", P), P, after[:200], exp[i][2][:200]), wit)
 
 
 def make_case(i, s):
@@ -174,7 +272,7 @@ def make_case(i, s):
                                           extra="REEXPORT = [%s]\ndef getter():\n    return REEXPORT\n" % ", ".join(sub[:5]))})
     # an importer of the importer: re-exported values and values reached through a function
     units.append({"file": "imp_re.star",
-                  "src": 'load("imp0.star", "REEXPORT", "getter")\n' + WALKER + 'attack("re", [REEXPORT, getter()])\n'})
+                  "src": 'load("imp0.star", "REEXPORT", "getter")\n' + WALKER + 'attack("re", [("REEXPORT", REEXPORT), ("getter()", getter())])\n'})
     units.append({"file": "imp_calls.star", "src": 'load("lib.star", "getter1", "getter2", "reader1", "local_getter", "GETTERS")\n' +
                   "".join('emit("impcall", "%s", attempt(%s))\n' % (c, c) for c in calls) +
                   'emit("impcall2", attempt(GETTERS.g), attempt(GETTERS.l[0]))\n'})
@@ -193,7 +291,8 @@ def run(tier):
         cases.append(c)
         meta[c["id"]] = names
     flavors = ["dbg"] if tier == "quick" else ["dbg", "rel"]
-    st = {"exports": 0, "attempts": 0, "wellformed": 0, "illformed": 0, "containers": 0, "nonmut": 0, "calls": 0, "libs_ok": 0}
+    st = {"exports": 0, "attempts": 0, "wellformed": 0, "illformed": 0, "containers": 0, "nonmut": 0, "calls": 0, "libs_ok": 0,
+          "const_path_attempts": 0, "const_path_observations": 0}
     distinct = set()
     samples = []
     for flavor in flavors:
@@ -307,8 +406,28 @@ def run(tier):
                         break
             if len(samples) < 2 and len(pre) > 5:
                 samples.append({"id": c["id"], "exports": sorted(pre)[:12], "lib_head": c["units"][0]["src"][:700]})
+        # round 2: literal (constant-foldable) paths
+        cases2, expects = [], {}
+        for c in cases:
+            evs = batch.events.get(c["id"])
+            if evs is None or any(e[0] == "r" and e[1] == "lib.star" and e[3] != "ok" for e in evs):
+                continue
+            c2, expect = const_path_case(c, evs, random.Random("%d/c04lit/%s" % (s, c["id"])))
+            if c2:
+                cases2.append(c2)
+                expects[c2["id"]] = expect
+        batch2 = common.run_cases(svh, "run", cases2, "c04lit_" + flavor, shards=NCPU, timeout=3000)
+        for cr in batch2.crashes:
+            rep.violation("c04:" + common.crash_signature(cr), "[%s] crash in %s" % (flavor, cr["id"]), {"flavor": flavor, "case": cr["case"], "crash": cr.get("confirm")})
+        for inc in batch2.inconclusive:
+            rep.inconc(inc["why"], inc.get("id"))
+        for c2 in cases2:
+            if c2["id"] in batch2.events:
+                check_const_paths(rep, flavor, c2, expects[c2["id"]], batch2.events[c2["id"]], st)
+        if len(samples) < 3 and cases2:
+            samples.append({"id": cases2[0]["id"], "literal_path_importer_tail": cases2[0]["units"][-1]["src"][-600:]})
     rep.coverage = {
-        "evaluations": st["attempts"] + st["exports"] + st["nonmut"],
+        "evaluations": st["attempts"] + st["exports"] + st["nonmut"] + st["const_path_attempts"] + st["const_path_observations"],
         "distinct_nontrivial": len(distinct),
         "rule": "evaluation = one mutation attempt on a frozen container (with its control on an unfrozen copy), one export compared across freeze, or one non-mutating operation set compared frozen vs copy; "
                 "distinct_nontrivial = distinct export encodings (truncated to 300 chars) conserved across freeze",
@@ -321,11 +440,13 @@ def run(tier):
         "attempts_discarded_as_ill_formed": st["illformed"],
         "nonmutating_comparisons": st["nonmut"],
         "exported_function_calls": st["calls"],
+        "literal_path_mutation_attempts": st["const_path_attempts"],
+        "literal_path_observations": st["const_path_observations"],
         "flavors": flavors,
     }
     rep.assumptions = ["a mutation attempt counts only if the same operation succeeds and changes an unfrozen shallow copy (control)",
                        "the walker reaches containers through lists, tuples, dict keys/values, struct and record fields up to depth 4"]
-    rep.finish(sanity_ok=st["wellformed"] > n and st["exports"] > n, sanity_msg="too few attempts / exports")
+    rep.finish(sanity_ok=st["wellformed"] > n and st["exports"] > n and st["const_path_attempts"] > n, sanity_msg="too few attempts / exports")
 
 
 def _ty(enc):
